@@ -19,6 +19,7 @@ EXPLANATION = (
     "procedural maps are restored from their dedicated trailing fields; (4) serialize emits "
     "MAGIC || 0 and deserialize dispatches on the same constants."
     ' Later additions: every wire struct writes each field on every path (no skip_field; read from the derived serialize), each `serialize_with` wrapper is resolved per field; neither legacy conversion iterates through a dropping / truncating adapter; the decoded blocker and cache are installed as decoded (C09.4).'
+    ' Round 6: the engine<->wire conversions call no selecting adapter and the reader installs each cosmetic collection as a whole (no per-entry insert over a restored bin).'
 )
 NOT_DECIDED = ("Behavioural equality of two engines on concrete queries; that msgpack encodes each "
                "primitive faithfully (dependency).")
@@ -45,6 +46,7 @@ def check(run):
     for cfg in run.cfgs("A", "B"):
         F = run.facts(cfg)
         run.guard("C08.1.state-coverage", cfg, lambda: rule_coverage(run, F, cfg))
+        run.guard("C08.1.state-coverage", cfg + "/whole-views", lambda: rule_whole_views(run, F, cfg))
         run.guard("C08.2.positional", cfg, lambda: rule_positional(run, F, cfg))
         run.guard("C08.3.legacy-bijection", cfg, lambda: rule_legacy(run, F, cfg))
         run.guard("C08.4.header", cfg, lambda: rule_header(run, F, cfg))
@@ -55,6 +57,36 @@ def check(run):
         from . import C09 as _C09f
         b94 = run.borrow("C09", only=r"decoded-state-installed-verbatim|post-load-mutation", why="the loaded engine behaves like the one that was serialized only if everything decoded is installed as decoded (not overridden by the receiving engine's own settings)")
         run.guard("C08.via.C09.4.fixpoint", cfg, lambda: (_C09f.rule_fixpoint(b94, F, cfg), _C09f.rule_no_carry(b94, F, cfg)))
+
+
+def rule_whole_views(run, F, cfg):
+    """The two conversions between the engine and the wire structs move whole collections: the writer's fields are
+    whole maps / lists of the engine (or the legacy re-encoding of all of them, C08.3), the reader installs each decoded
+    collection as a whole. Neither selects elements (no filter / filter_map / take ..), and the reader does not patch
+    single entries into a bin it has already restored."""
+    from analysis.guards import selective_adapters
+    ser = find_fn(F, r"^<data_format::v0::SerializeFormat<'a> as std::convert::From<\(&'a blocker::Blocker, &'a cosmetic_filter_cache::CosmeticFilterCache\)>>::from$")
+    de = find_fn(F, r"impl std::convert::From<data_format::v0::DeserializeFormat> for \(blocker::Blocker, cosmetic_filter_cache::CosmeticFilterCache\)>::from$")
+    fs = [g for n, g in F.fns.items() if any(n == r.name or n.startswith(r.name + "::") for r in (ser, de))]
+    run.touched(*fs)
+    sel = selective_adapters(*fs)
+    run.ob("C08.1.state-coverage", "conversions-select-nothing", not sel and len(fs) >= 2,
+           f"the engine<->wire conversions ({len(fs)} functions incl. closures) call no iterator adapter that drops, "
+           f"truncates or picks elements; found: {sel[:3]}", site=sel[0][1] if sel else ser.loc(0), config=cfg,
+           detail="a wire field that holds only part of a collection (e.g. just the entries with a non-default "
+                  "attribute) cannot restore the collection")
+    patches = []
+    for g in fs:
+        if not (g.name == de.name or g.name.startswith(de.name + "::")):
+            continue
+        for b, t in g.calls(r"^std::collections::(HashMap|HashSet)::(insert|remove|entry|retain|clear)$|Extend<.*>>::extend$|^cosmetic_filter_cache::HostnameFilterBin::<.*>?::?insert$|HostnameFilterBin::insert$"):
+            tgt = g.vexpr_operand(t["args"][0])
+            if re.search(r"specific_rules|simple_(class|id)_rules|complex_(class|id)_rules|misc_generic_selectors", tgt):
+                patches.append((strip_generics(t["callee"]).split("::")[-1], tgt[-60:], g.loc(b)))
+    run.ob("C08.1.state-coverage", "reader-installs-whole-collections", not patches,
+           f"the reader assigns the cosmetic collections as wholes (no per-entry insert / remove on them after the legacy "
+           f"table has been restored); per-entry updates: {patches[:3]}", site=patches[0][2] if patches else de.loc(0), config=cfg,
+           detail="an insert under a key that the legacy restore has already filled replaces that bucket")
 
 
 def rule_coverage(run, F, cfg):
